@@ -357,16 +357,27 @@ func cliReference(p *fold.Path, script []int, errs map[string]string) (wantErr, 
 			}
 			proto = fmt.Sprintf("%q", matched)
 		case hExtensions:
+			// the path must have asked: one that did not gives the same outcome to a response
+			// naming an extension that was never offered
 			matchSeq++
-			if p.Chose(fmt.Sprintf("match#%d.err", matchSeq)) > 0 {
+			switch r := p.Chose(fmt.Sprintf("match#%d.err", matchSeq)); {
+			case r > 0:
 				return "match-error", proto
+			case r == -1:
+				return fmt.Sprintf("(the Sec-WebSocket-Extensions value v%d is never matched against the offer on this path)", idx), proto
 			}
 		case hOther:
-			if p.Chose("isnil(OnHeader)") == 0 {
+			switch p.Chose("isnil(OnHeader)") {
+			case 0:
 				hdrSeq++
-				if p.Chose(fmt.Sprintf("OnHeader#%d.err", hdrSeq)) > 0 {
+				switch r := p.Chose(fmt.Sprintf("OnHeader#%d.err", hdrSeq)); {
+				case r > 0:
 					return "OnHeader-error", proto
+				case r == -1:
+					return fmt.Sprintf("(OnHeader is set but not called for header v%d on this path)", idx), proto
 				}
+			case -1:
+				return fmt.Sprintf("(the outcome does not depend on whether OnHeader is set, although header v%d is one it must see)", idx), proto
 			}
 		}
 	}
